@@ -16,13 +16,14 @@ secondaries — nothing is bounded. "Names no version id" is the property's own 
   replicate_preserves_equiv  s₀ ≈ s₁, op succeeds on the primary s₀ ⇒ primary's new state ≈
                              secondary's new state, and the secondary succeeds
   failed_call_changes_nothing  a failed call (nothing is forwarded) leaves the primary ≈ itself
-  replication_step_preserves_convergence / replicas_converge_partial
-                             by induction: after EVERY call of EVERY history all secondaries ≈ the
-                             primary, and no secondary ever failed a forwarded call.
-                             `_partial` in exactly one respect: "the upload-id map lookup never
-                             misses" is a hypothesis on the run (`mapMiss` is an output of the
-                             model; the driver checks it on every trace). A miss is what happens
-                             after a restart with open uploads (`id_map_loss_diverges`).
+  replication_step_preserves_convergence / replicas_converge
+                             by induction: after EVERY call of EVERY history (any length, any
+                             number of secondaries) all secondaries ≈ the primary
+  id_map_never_misses        the upload-id map lookup finds its entry whenever the primary accepted
+                             the multipart call (no nil-slice panic within one process lifetime)
+  no_secondary_ever_fails    the caller always gets the primary's answer
+  id_map_loss_diverges       (outside the theorem) what a lost map — a restart with an open upload
+                             — does
 -/
 import Pithos.Lemmas.Replication
 
@@ -81,26 +82,41 @@ theorem failed_call_changes_nothing (q : Quirks) (s : State) (op : XOp) (hv : op
 theorem wf_preserved (q : Quirks) {s : State} (h : WF s) (op : XOp) (hv : op.namesVersion = false) :
     WF (xstep q s op).1 := xstep_wf q h op hv
 
-/-- **replication_step_preserves_convergence.** One call through the replication storage, in a
-state where every secondary agrees with the primary: afterwards every secondary agrees with the
-primary again — whether the call failed on the primary, was a read, or was forwarded — unless the
-answer reports an id-map lookup miss. -/
-theorem replication_step_preserves_convergence (q : Quirks) {rs : RState} (hi : Inv rs) (op : XOp)
-    (hv : op.namesVersion = false) (hm : (rstep q rs op).2.mapMiss = false) :
-    Inv (rstep q rs op).1 := rstep_inv q hi op hv hm
+/-- **replication_step_preserves_convergence.** One call (naming no version id) through the
+replication storage, in a state satisfying the invariant `Inv2` — every secondary agrees with the
+primary; row ids unique; every id-map entry maps an upload id to itself for every secondary; every
+open upload of the primary has an id below the counter, one owning bucket name and an id-map
+entry: afterwards the invariant holds again — whether the call failed on the primary, was a read,
+or was forwarded. -/
+theorem replication_step_preserves_convergence (q : Quirks) {rs : RState} (hi : Inv2 rs) (op : XOp)
+    (hv : op.namesVersion = false) : Inv2 (rstep q rs op).1 := rstep_inv2 q hi op hv
 
-/-- **replicas_converge_partial.** Start with `n` empty secondaries (any `n`) and run ANY history
-of calls that name no version id (any length; bucket, object, multipart incl. UploadPartCopy, copy,
-append, tagging, delete(s), versioning, transitions, failing calls included). If no id-map lookup
-missed along the way, then at the end — hence, the history being arbitrary, after every call —
-every secondary agrees with the primary up to timestamps, and so exposes the same buckets, keys,
-contents, content types, metadata and tags. -/
-theorem replicas_converge_partial (q : Quirks) (n : Nat) (ops : List XOp)
-    (hv : ∀ op ∈ ops, op.namesVersion = false)
-    (hm : ∀ o ∈ (rrun q (init n) ops).2, o.mapMiss = false) :
+/-- **id_map_never_misses.** Along every history (no version ids) from the empty state, the lookup
+of a primary upload id in `primaryUploadIdToSecondaryUploadIds` finds its entry whenever the
+primary accepted the multipart call: the Go code never indexes the nil slice. -/
+theorem id_map_never_misses (q : Quirks) (n : Nat) (ops : List XOp)
+    (hv : ∀ op ∈ ops, op.namesVersion = false) : ∀ o ∈ (rrun q (init n) ops).2, o.mapMiss = false :=
+  rrun_no_miss q ops (inv2_init n) hv
+
+/-- **no_secondary_ever_fails.** In a state reached by such a history, the caller of the next call
+gets the primary's answer: no forwarded call fails on a secondary (so "successful through the
+replication storage" = "successful on the primary"). -/
+theorem no_secondary_ever_fails (q : Quirks) (n : Nat) (ops : List XOp) (op : XOp)
+    (hv : ∀ o ∈ ops, o.namesVersion = false) (hop : op.namesVersion = false) :
+    (rstep q (rrun q (init n) ops).1 op).2.out = (xstep q (rrun q (init n) ops).1.primary op).2 :=
+  rstep_answer q (rrun_inv2 q ops (inv2_init n) hv) op hop
+
+/-- **replicas_converge.** Start with `n` empty secondaries (any `n`) and run ANY history of calls
+that name no version id (any length; bucket, object, multipart incl. UploadPartCopy, copy, append,
+tagging, delete(s), versioning, transitions; failing calls included). At the end — hence, the
+history being arbitrary, after every call — every secondary agrees with the primary up to
+timestamps, and so exposes the same buckets, keys, object contents, content types, metadata and
+tags. -/
+theorem replicas_converge (q : Quirks) (n : Nat) (ops : List XOp)
+    (hv : ∀ op ∈ ops, op.namesVersion = false) :
     Converged (rrun q (init n) ops).1 ∧
     ∀ t ∈ (rrun q (init n) ops).1.secs, observe (rrun q (init n) ops).1.primary = observe t := by
-  have hinv := rrun_inv q ops (inv_init n) hv hm
+  have hinv := rrun_inv2 q ops (inv2_init n) hv
   exact ⟨hinv.conv, fun t ht => observe_congr (hinv.conv t ht)⟩
 
 -- ---------------------------------------------------------------- non-vacuity, and the id map
@@ -113,9 +129,9 @@ def h1 : List XOp :=
    .base (.append "b" "k" [9] (some 2)), .base (.copy "b" "m" none "b" "c" false false {}),
    .base (.setVer "b" .enabled), .delMany "b" ["k", "nokey"], .base (.del "b" "m" none .star)]
 
-/-- The hypotheses of `replicas_converge_partial` are met by a history that exercises conditional
-puts (one failing), a three-call multipart upload with an UploadPartCopy and a conditional
-complete, an append with offset, a copy, versioning and deletes, over two secondaries … -/
+/-- The hypothesis of `replicas_converge` is met by a history that exercises conditional puts (one
+failing), a three-call multipart upload with an UploadPartCopy and a conditional complete, an
+append with offset, a copy, versioning and deletes (and, computed directly, it reports no miss) … -/
 example : (∀ op ∈ h1, op.namesVersion = false) ∧
     (∀ o ∈ (rrun Quirks.code (init 2) h1).2, o.mapMiss = false) := by decide
 
@@ -123,9 +139,10 @@ example : (∀ op ∈ h1, op.namesVersion = false) ∧
 example : (observe (rrun Quirks.code (init 2) h1).1.primary).map (fun x => (x.1, x.2.map (·.key)))
     = [("b", ["c"])] := by decide
 
-/-- **id_map_loss_diverges.** What the excluded trigger looks like: the id map is in memory only.
-If it is lost while an upload is open (a restart), the next UploadPart succeeds on the primary and
-then indexes Go's nil slice (`mapMiss`, a panic): the secondary is left behind. -/
+/-- **id_map_loss_diverges.** Outside the theorem (the state is not reachable by a history within
+one process lifetime): the id map is in memory only. If it is lost while an upload is open (a
+restart), the next UploadPart succeeds on the primary and then indexes Go's nil slice (`mapMiss`,
+a panic): the secondary is left behind. The invariant's id-map clause is what excludes this. -/
 def lostMap : RState :=
   { (rrun Quirks.code (init 1) [.base (.mkb "b"), .base (.mpu "b" "m" {})]).1 with umap := [] }
 
